@@ -7,7 +7,7 @@ import json, os, subprocess, sys, shutil, tempfile
 from concurrent.futures import ThreadPoolExecutor
 
 VERIF = os.path.dirname(os.path.abspath(__file__))
-PROPS = ["C%02d" % i for i in range(1, 20)]
+PROPS = os.environ.get("EQ_PROPS", "").split() or ["C%02d" % i for i in range(1, 20)]
 
 
 SEEDROOT = os.path.join(VERIF, "seeded")
@@ -66,7 +66,7 @@ def main():
     seeds = args or sorted(os.listdir(SEEDROOT))
     seeds = [s for s in seeds if os.path.isdir(os.path.join(SEEDROOT, s))]
     results = {}
-    with ThreadPoolExecutor(max_workers=8 if external else 3) as ex:
+    with ThreadPoolExecutor(max_workers=int(os.environ.get("EQ_WORKERS", "0")) or (8 if external else 3)) as ex:
         for r in ex.map(run_seed, seeds):
             results[r["seed"]] = r
             own = r["seed"][:3]
